@@ -112,7 +112,7 @@ func historyCase(c *h.Case) {
 	}
 	s, err := acquire(variant)
 	if err != nil {
-		run.Inconclusive("server start failed: " + err.Error())
+		run.Inconclusive("no server: " + err.Error())
 		return
 	}
 	clean := false
@@ -140,7 +140,7 @@ func historyCase(c *h.Case) {
 				p.Close()
 			}
 		}
-		clean = h.Eventually(20*time.Second, func() bool { return routesEmpty(s) })
+		clean = waitClean(s)
 	}
 	for i := 1; i <= nReg; i++ {
 		p, err := h.DialPeer(h.PeerOpts{ServerPort: s.bindPort, TCPMux: true, Token: token, AutoWork: true, WorkHandler: backendHandler(i, lg)})
@@ -186,6 +186,9 @@ func historyCase(c *h.Case) {
 		}
 	}
 	c.Data["reg_plans"], c.Data["req_plans"] = plans, reqPlans
+	if c.Idx%500 == 0 {
+		run.Sample(map[string]any{"kind": "history", "vhost": kind, "variant": variantNames[variant], "triples": trs, "registrar_plans": plans[1:], "requests_of_client_0": reqPlans[0]})
+	}
 
 	var mu sync.Mutex
 	var ops []porcupine.Operation
@@ -386,7 +389,7 @@ func historyCase(c *h.Case) {
 	closeAll()
 	if !clean {
 		sn := s.srv.Snapshot()
-		c.Violation("routes-left-after-all-sessions-ended", "20 s after every session was closed the server still holds http=%v https=%v tcpmux=%v sessions=%d", sn.HTTPRoutes, sn.HTTPSRoutes, sn.TCPMuxRoutes, len(sn.Sessions))
+		c.Violation("routes-left-after-all-sessions-ended", "after every session was closed and left the session table the server still holds http=%v https=%v tcpmux=%v sessions=%d", sn.HTTPRoutes, sn.HTTPSRoutes, sn.TCPMuxRoutes, len(sn.Sessions))
 	}
 }
 
